@@ -16,7 +16,13 @@ import (
 )
 
 const repo = "/repo/luahelper-lsp"
-const out = "/verif/.build/gen"
+var home = func() string {
+	if h := os.Getenv("VERIF_HOME"); h != "" {
+		return h
+	}
+	return "/verif"
+}()
+var out = home + "/.build/gen"
 
 type overlay struct {
 	Replace map[string]string
@@ -73,12 +79,12 @@ func dropTelemetry(ov *overlay) {
 
 func main() {
 	ov := &overlay{Replace: map[string]string{}}
-	b, err := os.ReadFile("/verif/overlay/langserver_access.go.txt")
+	b, err := os.ReadFile(home + "/overlay/langserver_access.go.txt")
 	must(err)
 	dst := filepath.Join(out, "langserver/zz_verif_access.go")
 	writeIfChanged(dst, b)
 	ov.Replace[filepath.Join(repo, "langserver/zz_verif_access.go")] = dst
 	dropTelemetry(ov)
 	jb, _ := json.MarshalIndent(ov, "", " ")
-	writeIfChanged("/verif/.build/overlay.json", jb)
+	writeIfChanged(home+"/.build/overlay.json", jb)
 }
